@@ -48,11 +48,25 @@ theorem checkCert_sound (E : List WEdge) (pot : List Rat) (s t : Nat) (path : Li
 example : ∃ lo hi, checkCert [⟨0, 1, 1, 2⟩, ⟨1, 2, 1, 2⟩, ⟨0, 2, 3, 4⟩] [0, 1, 2] 0 2 [0, 1, 2] = some (lo, hi) :=
   ⟨2, 4, by decide +kernel⟩
 
+-- non-vacuity of `checkCert_sound`, all hypotheses jointly (certificate accepted AND true weights inside the
+-- enclosures; K = ℚ, true weight = lower end), and the theorem instantiated
+example : (∀ c, Walk [⟨0, 1, 1, 2⟩, ⟨1, 2, 1, 2⟩, ⟨0, 2, 3, 4⟩] (fun e => e.wlo) 0 2 c → (2 : Rat) ≤ c) ∧
+    ∃ c, Walk [⟨0, 1, 1, 2⟩, ⟨1, 2, 1, 2⟩, ⟨0, 2, 3, 4⟩] (fun e => e.wlo) 0 2 c ∧ c ≤ (4 : Rat) :=
+  checkCert_sound (K := Rat) [⟨0, 1, 1, 2⟩, ⟨1, 2, 1, 2⟩, ⟨0, 2, 3, 4⟩] [0, 1, 2] 0 2 [0, 1, 2] 2 4 (by decide +kernel)
+    (fun e => e.wlo) (by
+      intro e he
+      simp only [List.mem_cons, List.not_mem_nil, or_false] at he
+      rcases he with rfl | rfl | rfl <;> norm_num)
+
 /-- a witness path alone certifies an upper bound (used for penalty > 0) -/
 theorem witness_upper_bound (E : List WEdge) (w : WEdge → K) (hw : ∀ e ∈ E, w e ≤ (e.whi : K))
     (path : List Nat) (s t : Nat) (hi : Rat) (hh : path.head? = some s) (hl : path.getLast? = some t)
     (hp : pathHi E path = some hi) : ∃ c, Walk E w s t c ∧ c ≤ (hi : K) :=
   pathHi_walk E w hw path s t hi hh hl hp
+
+-- non-vacuity of `witness_upper_bound`
+example : ∃ c, Walk [⟨0, 1, 1, 2⟩, ⟨1, 2, 1, 2⟩, ⟨0, 2, 3, 4⟩] (fun e => e.whi) 0 2 c ∧ c ≤ (4 : Rat) :=
+  witness_upper_bound (K := Rat) _ (fun e => e.whi) (fun _ _ => le_refl _) [0, 1, 2] 0 2 4 rfl rfl (by decide +kernel)
 
 /-- (7) certified square-root enclosure: for x ≥ 0, 0 ≤ lo, lo² ≤ x ≤ hi², 0 < hi -/
 theorem sqrt_enclosure (x : Rat) (hx : 0 ≤ x) (k : Nat) :
@@ -67,6 +81,10 @@ theorem sqrt_enclosed (x : Rat) (hx : 0 ≤ x) (d : K) (hd : 0 ≤ d) (hdx : d *
 example : sqrtLo 2 10 * sqrtLo 2 10 ≤ 2 ∧ 2 ≤ sqrtHi 2 10 * sqrtHi 2 10 ∧ sqrtHi 2 10 - sqrtLo 2 10 = 1 / 1024 := by
   decide +kernel
 
+-- non-vacuity of `sqrt_enclosed` (K = ℚ, x = 4, d = 2)
+example : (sqrtLo 4 3 : Rat) ≤ 2 ∧ (2 : Rat) ≤ (sqrtHi 4 3 : Rat) :=
+  sqrt_enclosed (K := Rat) 4 (by norm_num) 2 (by norm_num) (by norm_num) 3
+
 /-- every edge of the explicit graph the driver builds stands for a spec-unblocked segment between two
     of the given points, with a certified enclosure of its Euclidean length: taking the Euclidean
     lengths as true weights satisfies the hypothesis of `checkCert_sound`. -/
@@ -78,5 +96,10 @@ theorem specGraph_edges_ok (shapes : List Poly) (excl : List Nat) (k : Nat) (pts
   refine ⟨p, hp, q, hq, hub, fun d hd hdx => ?_⟩
   rw [hlo, hhi]
   exact AdaptaVerif.Lemmas.Sqrt.sqrt_between_field _ (sqDist_nonneg p q) d hd hdx k
+
+-- `specGraph_edges_ok` is not hollow: the spec graph of the witness scene (rectangle [1,2]², points (0,0), (3,0),
+-- (3,3)) has edges; the blocked diagonal (0,0)–(3,3) is not among them
+example : (specGraph [[⟨2, 1⟩, ⟨2, 2⟩, ⟨1, 2⟩, ⟨1, 1⟩]] [] 4 [⟨0, 0⟩, ⟨3, 0⟩, ⟨3, 3⟩]).map (fun e => (e.u, e.v)) =
+    [(0, 1), (1, 0), (1, 2), (2, 1)] := by decide +kernel
 
 end AdaptaVerif.Props.C04
